@@ -1418,3 +1418,237 @@ pub fn run_cli(cli: &str, prog: &str, input: &str) -> Value {
     };
     json!({"out": vals, "end": end, "stderr": stderr.chars().take(300).collect::<String>()})
 }
+
+// ---------------------------------------------------------------------------------------
+// repo `Expr` -> spec AST (C24 calibration): None when any node is outside the fragment
+// ---------------------------------------------------------------------------------------
+
+fn pipe_all(mut xs: Vec<Ast>) -> Ast {
+    let mut acc = xs.remove(0);
+    for x in xs {
+        acc = pipe(acc, x);
+    }
+    acc
+}
+
+fn lit_num(text: &str) -> Option<Ast> {
+    if num_spelling_is_canonical(text) || text.parse::<i64>().map(|i| i.abs() < (1 << 30) && i.to_string() == text).unwrap_or(false) {
+        Some(Ast::Lit(V::Num(text.to_string())))
+    } else {
+        None
+    }
+}
+
+pub fn expr_to_ast(e: &Expr) -> Option<Ast> {
+    use jq::{ArithOp, Builtin as B, CompareOp, Literal, ObjectKey, Pattern};
+    let bx = |x: &Expr| expr_to_ast(x).map(Box::new);
+    Some(match e {
+        Expr::Identity => Ast::Id,
+        Expr::Field(n) => Ast::Field(n.clone()),
+        Expr::Index(i) => Ast::Idx(b(Ast::Id), b(lit_i(*i))),
+        Expr::Iterate => Ast::Iter,
+        Expr::IndexExpr { target, key } => Ast::Idx(bx(target)?, bx(key)?),
+        Expr::Optional(x) => Ast::Opt(bx(x)?),
+        Expr::Pipe(xs) => {
+            if xs.is_empty() {
+                return None;
+            }
+            let mut v = vec![];
+            for x in xs {
+                v.push(expr_to_ast(x)?);
+            }
+            pipe_all(v)
+        }
+        Expr::Comma(xs) => {
+            if xs.is_empty() {
+                return None;
+            }
+            let mut it = xs.iter();
+            let mut acc = expr_to_ast(it.next().unwrap())?;
+            for x in it {
+                acc = Ast::Comma(b(acc), bx(x)?);
+            }
+            acc
+        }
+        Expr::Array(inner) => match &**inner {
+            Expr::Comma(xs) if xs.is_empty() => Ast::Arr0,
+            x => Ast::Arr(bx(x)?),
+        },
+        Expr::Object(entries) => {
+            let mut kv = vec![];
+            for en in entries {
+                let k = match &en.key {
+                    ObjectKey::Literal(s) => lit_s(s),
+                    ObjectKey::Expr(x) => expr_to_ast(x)?,
+                };
+                kv.push((k, expr_to_ast(&en.value)?));
+            }
+            Ast::Obj(kv)
+        }
+        Expr::Literal(l) => match l {
+            Literal::Null => Ast::Lit(V::Null),
+            Literal::Bool(x) => Ast::Lit(V::Bool(*x)),
+            Literal::NumberLiteral(_, t) => lit_num(t)?,
+            Literal::Int(i) => lit_num(&i.to_string())?,
+            Literal::Float(_) => return None,
+            Literal::String(s) => Ast::Lit(V::Str(s.clone())),
+        },
+        Expr::RecursiveDescent => call0(".."),
+        Expr::Paren(x) => expr_to_ast(x)?,
+        Expr::Arithmetic { op, left, right } => {
+            let o = match op {
+                ArithOp::Add => "+",
+                ArithOp::Sub => "-",
+                ArithOp::Mul(f) => {
+                    if *f != Default::default() {
+                        return None;
+                    }
+                    "*"
+                }
+                ArithOp::Div => "/",
+                ArithOp::Mod => "%",
+            };
+            Ast::Bin(o, bx(left)?, bx(right)?)
+        }
+        Expr::Negate(x) => Ast::Neg(bx(x)?),
+        Expr::Compare { op, left, right } => {
+            let o = match op {
+                CompareOp::Eq => "==",
+                CompareOp::Ne => "!=",
+                CompareOp::Lt => "<",
+                CompareOp::Le => "<=",
+                CompareOp::Gt => ">",
+                CompareOp::Ge => ">=",
+            };
+            Ast::Cmp(o, bx(left)?, bx(right)?)
+        }
+        Expr::And(l, r) => Ast::And(bx(l)?, bx(r)?),
+        Expr::Or(l, r) => Ast::Or(bx(l)?, bx(r)?),
+        Expr::Not => call0("not"),
+        Expr::Alternative(l, r) => Ast::Alt(bx(l)?, bx(r)?),
+        Expr::If { cond, then_branch, else_branch } => Ast::If(bx(cond)?, bx(then_branch)?, bx(else_branch)?),
+        Expr::Try { expr, catch } => Ast::Try(
+            bx(expr)?,
+            match catch {
+                Some(c) => Some(bx(c)?),
+                None => None,
+            },
+        ),
+        Expr::Error(None) => Ast::Err0,
+        Expr::Error(Some(x)) => Ast::Err(bx(x)?),
+        Expr::As { expr, var, body } => Ast::As(bx(expr)?, var.clone(), bx(body)?),
+        Expr::Var(x) => {
+            if x.starts_with("__") || x == "ENV" {
+                return None;
+            }
+            Ast::Var(x.clone())
+        }
+        Expr::Reduce { input, patterns, init, update } => match patterns.as_slice() {
+            [Pattern::Var(x)] => Ast::Reduce(bx(input)?, x.clone(), bx(init)?, bx(update)?),
+            _ => return None,
+        },
+        Expr::Foreach { input, patterns, init, update, extract } => match patterns.as_slice() {
+            [Pattern::Var(x)] => Ast::Foreach(
+                bx(input)?,
+                x.clone(),
+                bx(init)?,
+                bx(update)?,
+                match extract {
+                    Some(c) => Some(bx(c)?),
+                    None => None,
+                },
+            ),
+            _ => return None,
+        },
+        Expr::Limit { n, expr } => call("limit", vec![expr_to_ast(n)?, expr_to_ast(expr)?]),
+        Expr::FirstExpr(x) => call("first", vec![expr_to_ast(x)?]),
+        Expr::LastExpr(x) => call("last", vec![expr_to_ast(x)?]),
+        Expr::Range { from, to, step } => {
+            if step.is_some() {
+                return None;
+            }
+            match to {
+                None => call("range", vec![expr_to_ast(from)?]),
+                Some(t) => call("range", vec![expr_to_ast(from)?, expr_to_ast(t)?]),
+            }
+        }
+        Expr::Label { name, body } => Ast::Label(name.clone(), bx(body)?),
+        Expr::Break(n) => Ast::Break(n.clone()),
+        Expr::Builtin(bi) => {
+            let c1 = |f: &str, x: &Expr| expr_to_ast(x).map(|a| call(f, vec![a]));
+            let c2 = |f: &str, x: &Expr, y: &Expr| Some(call(f, vec![expr_to_ast(x)?, expr_to_ast(y)?]));
+            match bi {
+                B::Type => call0("type"),
+                B::Values => call0("values"),
+                B::Nulls => call0("nulls"),
+                B::Booleans => call0("booleans"),
+                B::Numbers => call0("numbers"),
+                B::Strings => call0("strings"),
+                B::Arrays => call0("arrays"),
+                B::Objects => call0("objects"),
+                B::Iterables => call0("iterables"),
+                B::Scalars => call0("scalars"),
+                B::Length => call0("length"),
+                B::Utf8ByteLength => call0("utf8bytelength"),
+                B::Keys => call0("keys"),
+                B::KeysUnsorted => call0("keys_unsorted"),
+                B::Has(x) => c1("has", x)?,
+                B::In(x) => c1("in", x)?,
+                B::Select(x) => c1("select", x)?,
+                B::Empty => call0("empty"),
+                B::Map(x) => c1("map", x)?,
+                B::Add => call0("add"),
+                B::Any => call0("any"),
+                B::AnyF(x) => c1("any", x)?,
+                B::AnyCond(x, y) => c2("any", x, y)?,
+                B::All => call0("all"),
+                B::AllF(x) => c1("all", x)?,
+                B::AllCond(x, y) => c2("all", x, y)?,
+                B::Min => call0("min"),
+                B::Max => call0("max"),
+                B::MinBy(x) => c1("min_by", x)?,
+                B::MaxBy(x) => c1("max_by", x)?,
+                B::AsciiDowncase => call0("ascii_downcase"),
+                B::AsciiUpcase => call0("ascii_upcase"),
+                B::Ltrimstr(x) => c1("ltrimstr", x)?,
+                B::Rtrimstr(x) => c1("rtrimstr", x)?,
+                B::Startswith(x) => c1("startswith", x)?,
+                B::Endswith(x) => c1("endswith", x)?,
+                B::Join(x) => c1("join", x)?,
+                B::First => call0("first"),
+                B::Last => call0("last"),
+                B::Reverse => call0("reverse"),
+                B::Flatten => call0("flatten"),
+                B::FlattenDepth(x) => c1("flatten", x)?,
+                B::GroupBy(x) => c1("group_by", x)?,
+                B::Unique => call0("unique"),
+                B::UniqueBy(x) => c1("unique_by", x)?,
+                B::Sort => call0("sort"),
+                B::SortBy(x) => c1("sort_by", x)?,
+                B::ToEntries => call0("to_entries"),
+                B::FromEntries => call0("from_entries"),
+                B::WithEntries(x) => c1("with_entries", x)?,
+                B::ToString => call0("tostring"),
+                B::ToJson => call0("tojson"),
+                B::Explode => call0("explode"),
+                B::Implode => call0("implode"),
+                B::ToStream => call0("tostream"),
+                B::FromStream(x) => c1("fromstream", x)?,
+                B::GetPath(x) => c1("getpath", x)?,
+                B::Recurse => call0("recurse"),
+                B::Paths => call0("paths"),
+                B::PathsFilter(x) => c1("paths", x)?,
+                B::LeafPaths => call0("leaf_paths"),
+                B::SetPath(x, y) => c2("setpath", x, y)?,
+                B::DelPaths(x) => c1("delpaths", x)?,
+                B::Limit(x, y) => c2("limit", x, y)?,
+                B::FirstStream(x) => c1("first", x)?,
+                B::LastStream(x) => c1("last", x)?,
+                B::IsEmpty(x) => c1("isempty", x)?,
+                B::NullLit => Ast::Lit(V::Null),
+                _ => return None,
+            }
+        }
+        _ => return None,
+    })
+}
